@@ -23,6 +23,7 @@ CONSTANTS
   TermT = 5
   WaitTruthful = TRUE
   TermOwnTimeout = TRUE
+  ClosedGuard = TRUE
 INVARIANT TypeOK
 CHECK_DEADLOCK FALSE
 INVARIANT PathDump
